@@ -703,6 +703,28 @@ def discharge_by_guard(p, s):
         for key, possible in excluded.items():
             if not possible:
                 return "unreachable: the preceding tests on %s exclude every variant of the enum" % show(key, 3)
+    if decl == "core::ops::index::Index::index" and len(s.ops) > 1 and re.match(r"^&('\w+ )?str$", (s.t.get("arg_tys") or [""])[0] or ""):
+        # a str sliced at offsets that str::find / rfind returned for that very string (or at its length): in range and on a
+        # character boundary by the contract of those searches
+        rg = deep_strip(s.ops[1])
+        if rg[0] == "agg" and re.search(r"range::Range(To|From)?$", rg[1] or ""):
+            whole = _sig(s.ops[0])
+
+            def found_in_same(e):
+                e = deep_strip(e)
+                alts = e[1] if e[0] == "phi" else (e,)
+                for a in alts:
+                    a = deep_strip(a)
+                    if a[0] == "call" and a[1] == "core::str::<impl str>::len" and _sig(a[2][0]) == whole:
+                        continue
+                    if a[0] == "field" and a[2] == "0" and deep_strip(a[1])[0] == "as" and deep_strip(a[1])[2] == "Some":
+                        c = deep_strip(deep_strip(a[1])[1])
+                        if c[0] == "call" and c[1] in ("core::str::<impl str>::find", "core::str::<impl str>::rfind") and _sig(c[2][0]) == whole:
+                            continue
+                    return False
+                return True
+            if rg[3] and all(found_in_same(v) for n_, v in rg[3]):
+                return "the bounds are offsets str::find returned for the sliced string itself (or its length): in range and on a char boundary"
     if decl in ("alloc::vec::Vec::<T, A>::drain", "alloc::string::String::drain") and len(s.ops) > 1:
         rg = strip(s.ops[1])
         if rg[0] == "agg" and rg[1].endswith("RangeFull"):
